@@ -609,7 +609,9 @@ def rule_global_edges_inverse(ctx, rep):
     nb, pb, lf = w.func(A, "next_blocks_global"), w.func(A, "prev_blocks_global"), w.func(A, "leaf_block_global")
     where = ctx.path(A)
     for name, kw in (("call/return", {}), ("return point is also a jump target", {"extra_jump": True}), ("two call sites", {"two_callers": True}),
-                     ("callee never returns", {"callee_returns": False}), ("loops back to the entry of a subroutine and of the program", {})):
+                     ("callee never returns", {"callee_returns": False}),
+                     ("return point is also a jump target and the callee never returns", {"extra_jump": True, "callee_returns": False}),
+                     ("loops back to the entry of a subroutine and of the program", {})):
         g, fn = _loopgraph(ctx) if name.startswith("loop") else _callgraph(ctx, **kw)
         tag = {id(b): n for n, b in g.blocks.items()}
         nxt = {n: sorted(tag[id(x)] for x in w.call(nb, fn, b)) for n, b in g.blocks.items()}
@@ -628,6 +630,56 @@ def rule_global_edges_inverse(ctx, rep):
         if kw.get("callee_returns", True):
             rp = ["R", "R2"] if kw.get("two_callers") else ["R"]
             rep.check(nxt["F1"] == rp, rule, f"{name}: retsub -> return points", where, nxt["F1"], rp)
+
+
+def rule_global_edges_programs(ctx, rep):
+    rule = "T-GLOBAL(programs)"
+    rep.rule(rule, "on the functions built from the program shape classes: prev_blocks_global is the inverse of next_blocks_global (every global "
+                   "edge exists in both directions), and the global successors are the reference's (callsub -> callee entry, retsub -> return "
+                   "points of the call sites, block successors otherwise)")
+    w = ctx.world
+    A = "tealer.utils.analyses"
+    nb, pb = w.func(A, "next_blocks_global"), w.func(A, "prev_blocks_global")
+    w.module(PF).values["_apply_transaction_context_analysis"] = ("builtin", "noop")
+    cf, pt = w.func(PF, "construct_function"), w.func(PT, "parse_teal")
+    where = ctx.path(A)
+    extra = {"return point that is a jump target, the callee never returns":
+             "#pragma version 6\ntxn Amount\nbz approve\ncallsub reject\napprove:\nint 1\nreturn\nreject:\nint 0\nreturn\n",
+             "return point that is a loop header, the callee never returns":
+             "#pragma version 6\ntxn Amount\nbz top\ncallsub bail\ntop:\ntxn Fee\npop\ntxn Amount\nbnz top\nint 1\nreturn\nbail:\nerr\n"}
+    n = 0
+    for name, src in list(SHAPES.items()) + list(extra.items()):
+        try:
+            teal = w.call(pt, src, "c")
+            fn = w.call(cf, teal, ["B0"])
+            blocks = {w.getattr(b, "idx"): b for b in w.getattr(fn, "blocks")}
+            nxt = {i: sorted(w.getattr(x, "idx") for x in w.call(nb, fn, b)) for i, b in blocks.items()}
+            prv = {i: sorted(w.getattr(x, "idx") for x in w.call(pb, fn, b)) for i, b in blocks.items()}
+        except PyRaise as e:
+            rep.violation(rule, f"{name}: runs", where, f"RAISES {e.exc} {e.where}", "global neighbours")
+            continue
+        inv = {i: sorted(m for m in nxt if i in nxt[m]) for i in nxt}
+        n += 1
+        rep.check(prv == inv, rule, f"{name}: prev = inverse of next", where, {i: prv[i] for i in prv if prv[i] != inv[i]}, {i: inv[i] for i in prv if prv[i] != inv[i]},
+                  why="a global edge that exists in one direction is missing in the other: the forward and backward analyses disagree about the graph")
+        ref = reference_cfg(ctx, src)
+        callee_of = {c: s_ for s_, v in ref["subs"].items() if s_ != "__main__" for c in v["callers"]}
+        sub_of = {b: s_ for s_, v in ref["subs"].items() for b in v["blocks"]}
+        want = {}
+        for i in blocks:
+            if i not in ref["blocks"]:
+                continue
+            kind = ref["blocks"][i]["text"][-1].split()[0]
+            if kind == "callsub" and i in callee_of:
+                want[i] = [ref["subs"][callee_of[i]]["entry"]]
+            elif kind == "retsub":
+                want[i] = sorted(ref["subs"][sub_of[i]]["return_points"]) if sub_of.get(i, "__main__") != "__main__" else []
+            else:
+                want[i] = sorted(ref["blocks"][i]["next"])
+        got = {i: nxt[i] for i in want}
+        rep.check(got == want, rule, f"{name}: global successors", where, {i: got[i] for i in got if got[i] != want[i]}, {i: want[i] for i in got if got[i] != want[i]},
+                  sample={"program": name} if n <= 6 else None)
+    rep.count("functions checked", n)
 
 
 def rule_call_graph(ctx, rep):
